@@ -187,7 +187,11 @@ class StreamScenario:
                     else: s["rd"] = None; self.do(f"srdone {k} {r}"); self.count("hs-" + r)
                 else:
                     n = min(len(buf), s["rd"], rng.choice([1, 2, 5, 64])); data = bytes(buf[:n]); del buf[:n]; s["rd"] = None
-                    self.do(f"srx {k} {data.hex()}")
+                    if not buf and rng.random() < 0.12:
+                        # the last handshake bytes arrive and the application cancels the client right behind that completion
+                        self.do(f"srx {k} {data.hex()} +cc"); self.open = False; self.count("cancel-behind-handshake-completion")
+                    else:
+                        self.do(f"srx {k} {data.hex()}")
             elif kind == "rx":
                 n = min(s["rd"], rng.choice([1, 2, 10])); s["rd"] = None
                 self.do(f"srx {k} {bytes(rng.randrange(256) for _ in range(n)).hex()}"); self.count("rx")
